@@ -53,4 +53,31 @@ def applyOpts (blocks : List OptBlock) (s : Srv) : Bool × Bool := applyOptsOrde
     push/handler.go compute -/
 def effectiveCreds (logs : Bool × Bool) : Bool := logs.1 && logs.2
 
+/-! ### the redirect server of automatic HTTPS (modules/caddyhttp/autohttps.go)
+
+Phase 1 walks the servers in name order; for every server that qualifies for automatic HTTPS
+`if srv.Logs != nil { logCfg = srv.Logs.clone() }`, and the server it creates for the HTTP->HTTPS redirects
+(`remaining_auto_https_redirects`) gets `Logs: logCfg` — the clone (flag included) of the LAST such server. -/
+
+/-- one configured server in name order: does it qualify for automatic HTTPS, and its `logs.should_log_credentials`
+    (none = no `logs` object) -/
+structure TlsSrv where
+  qualifies : Bool
+  logs : Option Bool
+deriving DecidableEq, Repr
+
+/-- `logCfg` after the loop; none = the redirect server has no `logs` object -/
+def redirectLogs : List TlsSrv → Option Bool
+  | [] => none
+  | s :: r =>
+    match redirectLogs r with
+    | some f => some f                 -- a later server overwrote it
+    | none => if s.qualifies then s.logs else none
+
+/-- the flag the redirect server's log sites read -/
+def redirectCreds (srvs : List TlsSrv) : Bool :=
+  match redirectLogs srvs with
+  | some f => f
+  | none => false
+
 end CaddyModel.C20
